@@ -121,8 +121,15 @@ class Vector():
 			initial = tuple(initial)
 			_precomputed_data = initial
 
+		# 'initial' may itself be a Vector, whose truth value is deliberately undefined:
+		# decide emptiness by length
+		try:
+			has_items = len(initial) > 0
+		except TypeError:
+			has_items = bool(initial)
+
 		# Check if we're creating a Table (all elements are vectors of same length)
-		if initial and all(isinstance(x, Vector) for x in initial):
+		if has_items and all(isinstance(x, Vector) for x in initial):
 			if len({len(x) for x in initial}) == 1:
 				from .table import Table
 				return Table(initial=initial, dtype=dtype, name=name, as_row=as_row)
@@ -134,7 +141,7 @@ class Vector():
 		
 		# Infer dtype if not provided
 		# (Safe to run now because 'initial' is definitely a tuple/list/reusable)
-		if dtype is None and initial:
+		if dtype is None and has_items:
 			dtype = infer_dtype(initial)
 		
 		# Dispatch to typed subclasses based on inferred dtype
